@@ -111,9 +111,56 @@ def C10_every_instant_statement : Prop :=
     Reachable (Config.init P tree progs) c → c.dead = false →
     ∀ t, ∀ h ∈ heldTrace t c.log.reverse [], h.length ≤ 3
 
+/-- a mutex recorded for thread `a` in the owner table is in `a`'s held list -/
+theorem holder_mem_held (c : Config K V) (ho : OwnerOk c) (l : Lk) (a : Nat) (h : c.holder l = some a) :
+    ∃ th, c.threads[a]? = some th ∧ l ∈ th.held := by
+  unfold Config.holder at h
+  cases hf : c.owner.find? (fun p => p.1 = l) with
+  | none => rw [hf] at h; cases h
+  | some p =>
+    rw [hf] at h
+    simp only [Option.map_some, Option.some.injEq] at h
+    have hm := List.mem_of_find?_eq_some hf
+    have hp1 : p.1 = l := by have := List.find?_some hf; simpa using this
+    have hpe : p = (l, a) := by cases p; simp_all
+    rw [hpe] at hm
+    have hc : 0 < c.owner.count (l, a) := List.count_pos_iff.mpr hm
+    rw [ho.1 l a] at hc
+    unfold heldOf at hc
+    cases hth : c.threads[a]? with
+    | none => rw [hth] at hc; simp at hc
+    | some th => rw [hth] at hc; exact ⟨th, rfl, List.count_pos_iff.mp hc⟩
+
+/-- **C10 (a goroutine merely holding an open cursor or executing a callback blocks no operation
+    that does not need that leaf).** If thread `b` waits for a mutex held by a thread `a` that is
+    resting with an open cursor (at a client pause) or is inside an Update callback, then that
+    mutex is the mutex of the ONE leaf `a` holds. -/
+theorem C10_blocks_only_its_leaf (P : Params K) (tree : Tree K V) (progs : List (List (COp K V)))
+    (c : Config K V) (hr : Reachable (Config.init P tree progs) c) (hd : c.dead = false)
+    (a : Nat) (tha : Thread K V) (hta : c.threads[a]? = some tha)
+    (hrest : tha.park = .yielded .paused ∨ ∃ key f leaf arg, tha.park = .yielded (.upCallback key f leaf arg))
+    (l : Lk) (hl : c.holder l = some a) :
+    tha.held = [l] := by
+  have ho := reachable_owner _ c (init_ok P tree progs) (init_owner P tree progs) hr hd
+  obtain ⟨th, hth, hmem⟩ := holder_mem_held c ho l a hl
+  rw [hta] at hth
+  cases hth
+  have htm : tha ∈ c.threads := List.mem_of_getElem? hta
+  rcases hrest with hp | ⟨key, f, leaf, arg, hp⟩
+  · have hlen := C10_resting_cursor P tree progs c hr hd tha htm hp
+    match hh : tha.held, hmem, hlen with
+    | [x], hmem, _ => simp at hmem; rw [hmem]
+    | [], hmem, _ => cases hmem
+    | _ :: _ :: _, _, hlen => simp at hlen
+  · have hone := C10_callback_one_leaf P tree progs c hr hd tha htm key f leaf arg hp
+    rw [hone] at hmem ⊢
+    simp at hmem
+    rw [hmem]
+
 end Gobptree.Conc
 
 #print axioms Gobptree.Conc.C10_coupling_parked
 #print axioms Gobptree.Conc.C10_callback_one_leaf
 #print axioms Gobptree.Conc.C10_resting_cursor
 #print axioms Gobptree.Conc.C10_peak_inside_step
+#print axioms Gobptree.Conc.C10_blocks_only_its_leaf
